@@ -103,9 +103,38 @@ func c17ints(b []byte) []int {
 }
 
 func c17get(rc *RangeCache, rem *c17Remote, s, l int64, th int) c17Call {
+	c, _ := c17getHold(rc, rem, s, l, th)
+	return c
+}
+
+// c17held: a result a caller keeps while it goes on reading (the bytes handed out must stay what they were)
+type c17held struct {
+	idx int
+	b   []byte
+}
+
+// c17recheck rewrites the recorded bytes of every kept result whose content changed after it was returned, so that the
+// judge sees what the caller ends up holding
+func c17recheck(calls []c17Call, held []c17held) {
+	for _, h := range held {
+		now := c17ints(h.b)
+		same := len(now) == len(calls[h.idx].Bytes)
+		for i := 0; same && i < len(now); i++ {
+			same = now[i] == calls[h.idx].Bytes[i]
+		}
+		if !same {
+			calls[h.idx].Bytes = now
+			calls[h.idx].Err = "the returned bytes changed after a later call (result kept by the caller)"
+		}
+	}
+}
+
+func c17getHold(rc *RangeCache, rem *c17Remote, s, l int64, th int) (c17Call, []byte) {
 	c := c17Call{Op: "get", S: s, L: l, Up: !rem.down.Load(), Bytes: []int{}, Th: th}
+	var got []byte
 	if p := vt.Guard(func() {
-		got, err := rc.GetRange(context.Background(), s, l)
+		var err error
+		got, err = rc.GetRange(context.Background(), s, l)
 		if err != nil {
 			c.Res, c.Err = "err", err.Error()
 			return
@@ -114,7 +143,7 @@ func c17get(rc *RangeCache, rem *c17Remote, s, l int64, th int) c17Call {
 	}); p != "" {
 		c.Res, c.Err = "panic", p
 	}
-	return c
+	return c, got
 }
 
 // expire exactly the given ranges: make them old, everything else fresh, then run the real GC pass
@@ -141,11 +170,15 @@ func c17runCase(c *c17Case) c17Obs {
 	rc := NewRangeCache(c.Size, "x", rem.fetch)
 	o := c17Obs{Kind: "history", Size: c.Size}
 	sawFail, sawSuper := false, false
+	var held []c17held
 	for _, op := range c.Ops {
 		switch op.Op {
 		case "get":
 			before := rem.fetches.Load()
-			call := c17get(rc, rem, op.S, op.L, 0)
+			call, kept := c17getHold(rc, rem, op.S, op.L, 0)
+			if call.Res == "ok" {
+				held = append(held, c17held{len(o.Calls), kept})
+			}
 			if call.Res == "err" && !call.Up {
 				sawFail = true
 			}
@@ -172,6 +205,7 @@ func c17runCase(c *c17Case) c17Obs {
 			o.Calls = append(o.Calls, c17Call{Op: "toggle", Up: !rem.down.Load(), Bytes: []int{}})
 		}
 	}
+	c17recheck(o.Calls, held)
 	o.Fetches = int(rem.fetches.Load())
 	o.Nontriv = sawFail || sawSuper
 	return o
